@@ -659,4 +659,15 @@ Proof.
   - injection Heq as <- Heq. eapply IH; eassumption.
 Qed.
 
+(** from strict sortedness: whenever one popped event precedes another in (time, request order),
+    it was popped first — in particular a message sent earlier on a link with a fixed delay
+    (not later in time, smaller sequence number) is received first *)
+Lemma sorted_order_is_pop_order lo pops :
+  chain_sorted lo pops ->
+  forall p1 y p2 x p3, pops = p1 ++ y :: p2 ++ x :: p3 -> ev_lt A x y = false.
+Proof.
+  intros Hc p1 y p2 x p3 Heq. pose proof (chain_sorted_pairwise lo pops Hc p1 y p2 x p3 Heq) as H.
+  apply ev_lt_asym. exact H.
+Qed.
+
 End EventLoopP.
